@@ -156,6 +156,9 @@ def generate(seed: int, tier: str = "quick") -> dict:
         program.append(o)
     if A.add_bystander(R.sub(seed, "bystander"), world) is not None:
         faults.append({"kind": "second_market_of_the_same_kind_registered_first"})
+    if not mw.get("via_files") and R.sub(seed, "row_order").random() < 0.08:
+        mw["row_order"] = "newest_half_first"
+        faults.append({"kind": "index_history_rows_not_in_chronological_order"})
     opts = {"twin": True}
     if interval == "1min" and R.sub(seed, "direct_drive").random() < 0.1:
         # the market driven without Actuator.run(): statuses that already carry their data row (as demeter's unit tests do)
